@@ -37,7 +37,7 @@ theorem factorial_spec (t : Tbl) (n : Nat) (ht : TblInv t) (hn : n ≤ 170) :
 
 /-- `n > 170`: diagnostic, table unchanged -/
 theorem factorial_overflow (t : Tbl) (n : Nat) (hn : 170 < n) : factorial t n = (.error .diag, t) := by
-  unfold factorial; rw [if_pos hn]
+  unfold factorial; rw [if_pos (show n > K.factMax by simp only [K.factMax]; exact hn)]
 
 /-- **factorial_history**: for every sequence of calls `≤ 170`, in any order and with any
     repetitions, from any table satisfying the invariant (in particular the initial `{1.0}`), every
@@ -299,8 +299,24 @@ theorem gammaQ_eq_raw (E : Parts) (x a r : Rat) (h : gammaQRaw E x a = .ok r) (h
 theorem gammaLn_reassoc (T : Transc) (hlog : ∀ a b, 0 < a → 0 < b → T.log (a / b) = T.log a - T.log b)
     (x s : Rat) (hx : 0 < x) (hs : 0 < s) : gammaLnGlue T x s = gammaLnGlueQuot T x s := by
   unfold gammaLnGlue gammaLnGlueQuot
-  have hc : (0 : Rat) < sqrt2pi * s := mul_pos (by unfold sqrt2pi; norm_num) hs
+  have hc : (0 : Rat) < sqrt2pi * s := mul_pos (by unfold sqrt2pi; norm_num [K.sqrt2pi]) hs
   rw [hlog _ _ hc hx]
+
+/-- the Lanczos loop of the current source reads exactly the initialisers of `cof[]`: the loop bound equals the number of
+    coefficients (no read past the table, no unused coefficient), so the model's table is the whole list of the source -/
+theorem lanczos_table_complete : K.cof.length = K.lanczosTerms ∧ cof = K.cof := by
+  refine ⟨rfl, ?_⟩
+  unfold cof
+  exact List.take_of_length_le (le_of_eq rfl)
+
+/-- the constants of the current source keep the logarithms of `GammaLn` in their domain: `tmp = x + 671/128 > 0` and
+    `sqrt2pi > 0`, and the start value of the Lanczos sum is positive -/
+theorem gammaLn_constants_pos : (0 : Rat) < K.tmpNum / K.tmpDen ∧ (0 : Rat) < K.sqrt2pi ∧ (0 : Rat) < K.lanczos0 := by
+  refine ⟨?_, ?_, ?_⟩ <;> norm_num [K.tmpNum, K.tmpDen, K.sqrt2pi, K.lanczos0]
+
+/-- the Halley loop of `Inv_GammaP` runs at least once and its relative tolerance is positive and below 1 -/
+theorem invGammaP_constants : 0 < K.invIter ∧ (0 : Rat) < K.invEps ∧ K.invEps < 1 := by
+  refine ⟨by decide, ?_, ?_⟩ <;> norm_num [K.invEps]
 
 theorem gammaLn_guard (T : Transc) (x : Rat) : (∃ v, gammaLn T x = .ok v) ↔ 0 < x := by
   unfold gammaLn
